@@ -620,4 +620,125 @@ def reorder (results : List Record) : List StrId → Except Err (List Record)
       | .error e => .error e
       | .ok rs => .ok (r :: rs)
 
+/-! ### `clean_for_json` (utils/utils.py) -/
+
+/-- a Python value as `clean_for_json` distinguishes them -/
+inductive PyVal where
+  | none
+  | bool (b : Bool)
+  /-- `np.bool_` -/
+  | npBool (b : Bool)
+  | int (i : Int)
+  /-- `np.int64` -/
+  | npInt64 (i : Int)
+  /-- `float` (`np.float64` is a subclass of `float`) -/
+  | num (x : Num)
+  | str (s : StrId)
+  /-- anything else (`np.int32`, `np.float32`, a `Path`, …): returned as is -/
+  | other (tag : Nat)
+  | list (xs : List PyVal)
+  | tuple (xs : List PyVal)
+  /-- a `set` of integers, in whatever order it is enumerated -/
+  | intSet (xs : List Int)
+  /-- `np.ndarray`, given by its `.tolist()` -/
+  | ndarray (xs : List PyVal)
+  | dict (kvs : List (PyVal × PyVal))
+  deriving Repr, Inhabited
+
+mutual
+/-- `clean_for_json`: `np.int64 → int`, `np.bool_ → bool`, list / tuple →
+list, set → sorted list, ndarray → (cleaned) `.tolist()`, dict → dict with
+cleaned keys and values, everything else untouched -/
+def clean : PyVal → PyVal
+  | .npInt64 i => .int i
+  | .npBool b => .bool b
+  | .list xs => .list (cleanList xs)
+  | .tuple xs => .list (cleanList xs)
+  | .intSet xs => .list ((xs.mergeSort (fun a b => decide (a ≤ b))).map .int)
+  | .ndarray xs => .list (cleanList xs)
+  | .dict kvs => .dict (cleanKVs kvs)
+  | v => v
+def cleanList : List PyVal → List PyVal
+  | [] => []
+  | x :: xs => clean x :: cleanList xs
+def cleanKVs : List (PyVal × PyVal) → List (PyVal × PyVal)
+  | [] => []
+  | (k, v) :: rest => (clean k, clean v) :: cleanKVs rest
+end
+
+mutual
+/-- made of `None`, `bool`, `int`, `float`, `str`, `list`, `dict` only: what
+`json.dumps` encodes -/
+def plain : PyVal → Bool
+  | .npInt64 _ => false
+  | .npBool _ => false
+  | .other _ => false
+  | .tuple _ => false
+  | .intSet _ => false
+  | .ndarray _ => false
+  | .list xs => plainList xs
+  | .dict kvs => plainKVs kvs
+  | _ => true
+def plainList : List PyVal → Bool
+  | [] => true
+  | x :: xs => plain x && plainList xs
+def plainKVs : List (PyVal × PyVal) → Bool
+  | [] => true
+  | (k, v) :: rest => plain k && plain v && plainKVs rest
+end
+
+mutual
+/-- no leaf of an unknown type -/
+def noOther : PyVal → Bool
+  | .other _ => false
+  | .list xs => noOtherList xs
+  | .tuple xs => noOtherList xs
+  | .ndarray xs => noOtherList xs
+  | .dict kvs => noOtherKVs kvs
+  | _ => true
+def noOtherList : List PyVal → Bool
+  | [] => true
+  | x :: xs => noOther x && noOtherList xs
+def noOtherKVs : List (PyVal × PyVal) → Bool
+  | [] => true
+  | (k, v) :: rest => noOther k && noOther v && noOtherKVs rest
+end
+
+/-- the JSON value a Python value stands for -/
+inductive JVal where
+  | null
+  | bool (b : Bool)
+  | int (i : Int)
+  | num (x : Num)
+  | str (s : StrId)
+  | other (tag : Nat)
+  | arr (xs : List JVal)
+  | obj (kvs : List (JVal × JVal))
+  deriving Repr, Inhabited
+
+mutual
+/-- forget the Python container / scalar types (a set stands for the sorted
+array of its elements) -/
+def erase : PyVal → JVal
+  | .none => .null
+  | .bool b => .bool b
+  | .npBool b => .bool b
+  | .int i => .int i
+  | .npInt64 i => .int i
+  | .num x => .num x
+  | .str s => .str s
+  | .other t => .other t
+  | .list xs => .arr (eraseList xs)
+  | .tuple xs => .arr (eraseList xs)
+  | .intSet xs => .arr ((xs.mergeSort (fun a b => decide (a ≤ b))).map .int)
+  | .ndarray xs => .arr (eraseList xs)
+  | .dict kvs => .obj (eraseKVs kvs)
+def eraseList : List PyVal → List JVal
+  | [] => []
+  | x :: xs => erase x :: eraseList xs
+def eraseKVs : List (PyVal × PyVal) → List (JVal × JVal)
+  | [] => []
+  | (k, v) :: rest => (erase k, erase v) :: eraseKVs rest
+end
+
 end CTM.Output
